@@ -79,9 +79,30 @@ func c20a(c *Ctx) {
 			c.Check(ok, key, pos, "pop removes the last element of "+h.field, "pop stores "+got+", expected "+h.field+"[:len-1]")
 		case "peek":
 			okNil, okTop := false, false
+			type alt struct {
+				v    string
+				must []string
+			}
+			var alts []alt
 			for _, r := range returnsOf(fn) {
-				v := c.term(fn, r.Results[0])
-				must := c.mustLits(fn, r.Block())
+				// `return top(p.stack)`: the helper's returns, read with the stack as its argument
+				if call, isCall := r.Results[0].(*ssa.Call); isCall {
+					if g := callee(call); g != nil && c.W.InRepo(g) && len(g.Blocks) > 0 && g.Signature.Recv() == nil && c.T(fn).purity(g) >= purReadOnly {
+						for _, r2 := range returnsOf(g) {
+							a := alt{v: c.substParams(fn, call, c.term(g, r2.Results[0]))}
+							for _, l := range c.mustLits(g, r2.Block()) {
+								a.must = append(a.must, normLit(l[:1]+c.substParams(fn, call, l[1:])))
+							}
+							a.must = append(a.must, c.mustLits(fn, r.Block())...)
+							alts = append(alts, a)
+						}
+						continue
+					}
+				}
+				alts = append(alts, alt{c.term(fn, r.Results[0]), c.mustLits(fn, r.Block())})
+			}
+			for _, a := range alts {
+				v, must := a.v, a.must
 				if v == "nil" && hasLit(must, "-(0 < builtin:len("+f+"))") {
 					okNil = true
 				}
